@@ -26,11 +26,13 @@ import Biogo.Model.PalsOracle
 import Biogo.Model.PalsOptimise
 import Biogo.Spec.PalsKernel
 import Biogo.Spec.Filter
+import Biogo.Model.PalsKernel
 import Biogo.Generated.PalsConsts
 
 namespace Biogo.Drive.C15
 open Biogo.Wire Biogo.PalsOracle Biogo.PalsOptimise
-open Biogo.Generated.Pals (SameCost DiffCost RMatchCost)
+open Biogo.Generated.Pals (SameCost DiffCost RMatchCost MaxIGap MatchCost BlockCost)
+open Biogo.PalsMerge (Trap)
 
 def lettersOf (s : String) : Array Nat := (s.toList.map Char.toNat).toArray
 
@@ -182,8 +184,56 @@ def recovers (self : Bool) (qLen : Nat) (p : Plant) (o : HitObs) : Bool :=
   let mirror := self && 2 * overlap h.abpos h.aepos p.bPos p.bLen > p.bLen && 2 * overlap qs qe p.aPos p.aLen > p.aLen
   strandOK && (direct || mirror)
 
+/-! ### the kernel model run on the trapezoids the implementation's aligner was given -/
+
+def parseTrap (s : String) : Option Trap :=
+  match (s.splitOn ":").mapM parseInt with
+  | some [t, b, l, r] => some ⟨t, b, l, r⟩
+  | _ => none
+
+def parseTraps (s : String) : Option (List Trap) :=
+  if s == "-" then some [] else (s.splitOn ";").mapM parseTrap
+
+def kernelCosts : Biogo.PalsKernel.Costs :=
+  { maxIGap := MaxIGap, diffCost := DiffCost, matchCost := MatchCost, blockCost := BlockCost, rMatchCost := RMatchCost }
+
+def hitLe (a b : Hit) : Bool :=
+  if a.abpos ≠ b.abpos then a.abpos < b.abpos
+  else if a.bbpos ≠ b.bbpos then a.bbpos < b.bbpos
+  else if a.aepos ≠ b.aepos then a.aepos < b.aepos
+  else if a.bepos ≠ b.bepos then a.bepos < b.bepos
+  else a.score ≤ b.score
+
+/-- `AlignTraps` of the model (kernel, suppression with stable sorts) and `dropSelfMatches`:
+    the emitted hits and the returned ones -/
+def modelAlign (target working : Array Nat) (traps : List Trap) (k minLen minIdMilli : Int) (dropSelf : Bool) :
+    List Biogo.PalsKernel.KHit × List Hit :=
+  let em := Biogo.PalsKernel.emitted kernelCosts ⟨target, working⟩ traps k minLen (1000 - minIdMilli) 1000
+  let kept := suppress (fun l => l.mergeSort fun a b => a.abpos ≤ b.abpos) (fun l => l.mergeSort fun a b => a.aepos ≤ b.aepos)
+    (em.map (·.h))
+  let kept := if dropSelf then kept.filter (fun h => !(h.abpos == h.bbpos && h.aepos == h.bepos)) else kept
+  (em, kept)
+
+/-- model against implementation for one strand; `none` = the same hits (coordinates, score,
+    diagonals, error numerator) -/
+def kernelWhy (strand : Nat) (target working : Array Nat) (traps : List Trap) (k minLen minIdMilli : Int)
+    (dropSelf : Bool) (impl : List HitObs) : Option String :=
+  let (em, kept) := modelAlign target working traps k minLen minIdMilli dropSelf
+  let a := (impl.map (·.h)).mergeSort hitLe
+  let b := kept.mergeSort hitLe
+  if a != b then
+    some s!"kernel-model strand={strand} hits={";".intercalate (b.map fun h => s!"{h.abpos}:{h.aepos}:{h.bbpos}:{h.bepos}:{h.score}")}"
+  else
+    match impl.find? (fun o => !em.any (fun m => m.h == o.h && m.lowDiagonal == o.lowDiag && m.highDiagonal == o.highDiag)) with
+    | some o => some s!"kernel-model-diagonals {showHit o} {o.lowDiag}..{o.highDiag}"
+    | none => none
+
+/-- rows × columns the kernel has to fill at most once per trapezoid, a bound on the model's work -/
+def trapWork (traps : List Trap) : Int :=
+  traps.foldl (fun acc t => acc + (t.top - t.bottom + 1) * (t.right - t.left + 1 + 40)) 0
+
 def handleCase (self : Bool) (minLen minIdMilli maxMemMB : Int) (plants : List Plant) (target query : Array Nat)
-    (obs : String) : Verdict :=
+    (obs : String) (givenTraps : Option (List Trap) := none) : Verdict :=
   let baseTags := [if self then "self" else "non-self"] ++
     (if plants.isEmpty then ["no-plant"] else []) ++
     (if plants.any (·.comp) then ["plant-revcomp"] else []) ++
@@ -206,8 +256,18 @@ def handleCase (self : Bool) (minLen minIdMilli maxMemMB : Int) (plants : List P
   else if obs.startsWith "err:" || obs.startsWith "panic" || obs == "hang" then
     fail s!"implementation {obs.take 120}" baseTags
   else
-  match tokens obs with
-  | [p, o, hs] =>
+  match (match tokens obs with
+    | [p, o, hs] => some (p, o, hs, givenTraps.map fun t => (t, ([] : List Trap)))
+    | [p, o, hs, ts] =>
+      if !ts.startsWith "T=" then none
+      else match (ts.drop 2).toString.splitOn "|" with
+        | [t0, t1] =>
+          match parseTraps t0, parseTraps t1 with
+          | some t0, some t1 => some (p, o, hs, some (t0, t1))
+          | _, _ => none
+        | _ => none
+    | _ => none) with
+  | some (p, o, hs, trapsObs) =>
     if !(p.startsWith "P=" && o.startsWith "O=" && hs.startsWith "H=") then bad "observation" else
     match parseNats (p.drop 2).toString, parseInts (o.drop 2).toString, parseHits (hs.drop 2).toString with
     | some [k, n, e, off], some [ow, od], some hits =>
@@ -243,12 +303,26 @@ def handleCase (self : Bool) (minLen minIdMilli maxMemMB : Int) (plants : List P
           match hits.findSome? (modelWhy minLen minIdMilli) with
           | some w => diff w tags
           | none =>
+            -- the kernel model on the trapezoids the implementation's aligner was given
+            let (kw, tags) : Option String × List String :=
+              match trapsObs with
+              | none => (none, tags)
+              | some (t0, t1) =>
+                if trapWork t0 + trapWork t1 > 60000000 then (none, tags ++ ["kernel-model-skipped"])
+                else
+                  let w0 := kernelWhy 0 target query t0 k minLen minIdMilli self (hits.filter (·.strand == 0))
+                  let w1 := if givenTraps.isSome then none
+                            else kernelWhy 1 target working1 t1 k minLen minIdMilli false (hits.filter (·.strand == 1))
+                  ((w0 <|> w1), tags ++ ["kernel-model"])
+            match kw with
+            | some w => diff w tags
+            | none =>
             if optAgree then ok tags
             else diff ("optimise-model=" ++ (match optModel with
               | some q => s!"{q.wordSize},{q.minMatch},{q.maxError},{q.tubeOffset}"
               | none => "none")) tags
     | _, _, _ => bad "observation"
-  | _ => bad "observation"
+  | none => bad "observation"
 
 /-- `po`: Optimise alone — the model of the parameter search against the implementation, and the
     statement "accepted parameters have a positive q-gram threshold and, with the default
@@ -296,13 +370,13 @@ def handle (line : String) : String :=
       let query := if self then target else lettersOf q
       (handleCase self minLen minId mem plants target query obs).render
     | _, _, _, _, _ => (bad "input").render
-  | ["pt", minLen, minId, plants, _traps, t, q] =>
+  | ["pt", minLen, minId, plants, traps, t, q] =>
     -- the aligner on a given trapezoid list (two sequences, forward strand): same statement as `pw`
-    match parseInt minLen, parseInt minId, parsePlants plants with
-    | some minLen, some minId, some plants =>
-      let v := handleCase false minLen minId 64 plants (lettersOf t) (lettersOf q) obs
+    match parseInt minLen, parseInt minId, parsePlants plants, parseTraps traps with
+    | some minLen, some minId, some plants, some traps =>
+      let v := handleCase false minLen minId 64 plants (lettersOf t) (lettersOf q) obs (some traps)
       ({ v with tags := "given-trapezoids" :: v.tags }).render
-    | _, _, _ => (bad "input").render
+    | _, _, _, _ => (bad "input").render
   | ["po", tlen, qlen, minLen, _minId, mem, off] =>
     match parseInt tlen, parseInt qlen, parseInt minLen, parseInt mem, parseInt off with
     | some tlen, some qlen, some minLen, some mem, some off => (handleOptimise tlen qlen minLen mem off obs).render
